@@ -122,7 +122,10 @@ def _idx(i):
         raise TypeError('symbolic index')
     if isinstance(i, tuple): return tuple(_idx(k) for k in i)
     if isinstance(i, SArray): return [int(x) for x in i._a.flat]
-    if isinstance(i, BArray): raise Unsupported('boolean mask indexing')
+    if isinstance(i, BArray):
+        if _b.all(isinstance(x, (bool, _np.bool_)) for x in i._a.flat):
+            return _np.array(i._a, dtype=bool)          # concrete mask: NumPy's own boolean indexing
+        raise Unsupported('boolean mask indexing with a symbolic mask')
     return i
 
 
